@@ -372,6 +372,8 @@ fn update_function_arg_info(
     } else {
         key.iter_args().collect()
     };
+    // one slot per declared parameter, even if two parameters share a name
+    let nargs = entries.len();
     for (i, (name, default_val)) in entries.into_iter().enumerate() {
         symbol_table.extend_declaration(name.v.clone(), Declaration::Var(name.node()));
         arg_indices.insert(name.v.clone());
@@ -384,7 +386,6 @@ fn update_function_arg_info(
             }
         }
     }
-    let nargs = required_args.len() + default_args.len();
     let func_arg_info = FuncArgDetails {
         symbol_table,
         arg_indices,
@@ -1228,8 +1229,10 @@ fn calculate_named_arg_order(
         }
     }
     for (i, default_val) in &func_arg_info.default_args {
-        if reordered_args[*i].is_none() {
-            reordered_args[*i] = Some(default_val.clone());
+        if let Some(slot) = reordered_args.get_mut(*i)
+            && slot.is_none()
+        {
+            *slot = Some(default_val.clone());
         }
     }
     let reordered_args: Vec<_> = reordered_args.iter().flatten().cloned().collect();
